@@ -74,6 +74,10 @@ CLAIMED = {
   "abstract interpretation of the parser over an error-bound domain: constants (prec, rounding mode, base) and the ParseFloat→Mul→Int pipeline extracted from SSA/go/types, closed-form inequalities discharged with math/big; float-freeness and composition checks on the formatters and balance accessors; value-origin check on the wrapped-transaction value path",
   "Proof obligations O0–O6, extracted from the current source on every run and all discharged: the parser is exact for every decimal string with <=18 fractional and <=78 integer digits (prec 512 >= 322, both roundings away from zero, accumulated excess < 1 so truncation returns the exact integer), the formatter is float-free string arithmetic with exactly 18 fractional digits, the ERC20/Rocket rescalers are compositions of the two and every token-contract balance access goes through them, and a wrapped Ethereum transaction's value travels BigIntToStr → StrToBigInt unmodified. Strings with more than 18 fractional digits and ParseFloat's non-decimal syntaxes are outside the claim.",
   "Trusted base: math/big rounding semantics as documented, go/types constant evaluation, go/ssa lowering, and the error-propagation lemma written out in the evidence."),
+ "C14": ("3/C14",
+  "operator/operand binding of the verification equation on SSA; accept-edge guards; result discipline on G1/G2.Unmarshal; accept-edge analysis of the curve decoders; cone purity (no process-local state) for Sign/VerifySig; right-alignment idiom check on big-integer byte copies",
+  "Shape of BLS verification decided structurally: VerifySig returns true only as PairIsEuqal(Pair(sig, g2), Pair(H(msg), pub)) of its own arguments after the nil/validity guards; Sign computes H(msg)^sk; signature decoders consume both results of G1.Unmarshal; G1/G2.Unmarshal accept only full-length, on-curve (or infinity) encodings; nothing in the cone of Sign/VerifySig consults process-local mutable state; big-integer bytes are right-aligned in fixed-width buffers. Bilinearity, non-degeneracy, subgroup membership and soundness are algebraic and not decided (the baseline's curve tests sample them).",
+  "Trusted: bn256 pairing arithmetic; go/ssa. The fix: commit 12a6f68 (exact-length signature decoding) repaired finding F15; R14.2 re-checks it on every run."),
 }
 
 NOT_YET = {}
